@@ -73,6 +73,7 @@ class Reporter:
         self.assumptions = []
         self.extra = {}
         self.exhaustive = None
+        self.nontrivial_extra = 0
         self.known = [k for k in load_known() if k.get("property") == pid and k.get("status") == "known"]
         self.parts = {}
 
@@ -147,7 +148,7 @@ class Reporter:
         os.makedirs(EVIDENCE_DIR, exist_ok=True)
         cov = {
             "evaluations": self.evaluations,
-            "distinct_nontrivial": len(self.nontrivial),
+            "distinct_nontrivial": len(self.nontrivial) + self.nontrivial_extra,
             "rule": self.rule,
             "samples": (self.nt_samples + self.samples)[:10],
             "class_histogram": dict(sorted(self.classes.items())),
@@ -178,7 +179,7 @@ class Reporter:
         os.replace(tmp, path)
         status = "VIOLATED" if self.violations else "held"
         print("[%s] %s: %d cases, %d distinct non-trivial, %d known-finding hits, %.1fs"
-              % (self.pid, status, self.evaluations, len(self.nontrivial), sum(self.known_hits.values()),
+              % (self.pid, status, self.evaluations, len(self.nontrivial) + self.nontrivial_extra, sum(self.known_hits.values()),
                  time.time() - self.t0), flush=True)
         return 1 if self.violations else 0
 
